@@ -12,8 +12,11 @@ import CelloGen.Text
   The escape tables, delimiter bytes and the "does the escape arm `continue`" flag are *parameters* (`LookCfg`, `esc`): the
   instances used by the driver and by the theorems are the ones the translator extracts from the source (CelloGen/Text.lean).
 
-  What libc does is modelled, not verified (see Props/C15.lean, trusted base): `%li`/`%ld` of scanf (`scanLong`),
-  `%f` of printf (`printF`, exact, round-half-even) and `%lf` of scanf (`scanDouble`, exact, round-half-even).
+  What libc does is modelled, not verified (see Props/C15.lean, trusted base): the integer conversions of printf and scanf
+  (`printIntSpec`, `scanNumber`: every length modifier and `d i o u x X`), `%f` `%e` `%g` of printf (`printF` `printE` `printG`,
+  exact, round-half-even) and the floating conversions of scanf into a `double` or a `float` (`scanFloating`, exact,
+  round-half-even).  What `scan_from_with` does around them — which object it has scanf store into for which specification and
+  how that becomes the `Int` / `Float` (commit 9114264) — is a parameter read from the source (`Cfg.intArms`, `intSigned`, `floatWide`).
 -/
 namespace Cello.Text
 
@@ -45,7 +48,7 @@ def showByte (esc : List (Nat × List Nat)) (b : Nat) : List Nat :=
 def showString (esc : List (Nat × List Nat)) (opn cls : List Nat) (s : List Nat) : List Nat :=
   opn ++ s.flatMap (showByte esc) ++ cls
 
-/-! ## Decimal integers: `"%li"` of printf -/
+/-! ## Integers: the specifications `%[hh|h|l|ll|j|z|t|q][d|i|o|u|x|X]` of printf -/
 
 /-- decimal digits of a natural number, most significant first; `"0"` for 0 -/
 def natDigits (n : Nat) : List Nat :=
@@ -56,7 +59,63 @@ decreasing_by omega
 def printInt (n : Int) : List Nat :=
   if n < 0 then 45 :: natDigits n.natAbs else natDigits n.natAbs
 
-/-! ## `"%li"` / `"%ld"` of scanf (glibc `vfscanf`, number conversion + `strtol`) -/
+/-- the character printf writes for the digit `d`: `0-9`, then `a-f` (`%x`, `%o` never gets there) or `A-F` (`%X`) -/
+def digitChar (upper : Bool) (d : Nat) : Nat := if d < 10 then 48 + d else if upper then 55 + d else 87 + d
+
+/-- digits of `n` in base `base` (8 or 16 here), most significant first; `"0"` for 0 -/
+def digitsB (base : Nat) (upper : Bool) (n : Nat) : List Nat :=
+  if h : n < base ∨ base < 2 then [digitChar upper n] else digitsB base upper (n / base) ++ [digitChar upper (n % base)]
+termination_by n
+decreasing_by exact Nat.div_lt_self (by omega) (by omega)
+
+/-- length modifiers of an integer specification -/
+inductive IMod where
+  | none | hh | h | l | ll | j | z | t | q
+deriving DecidableEq, Repr, Inhabited
+
+/-- integer conversions -/
+inductive IConv where
+  | d | i | o | u | x | X
+deriving DecidableEq, Repr, Inhabited
+
+def IMod.text : IMod → List Nat
+  | .none => [] | .hh => [104, 104] | .h => [104] | .l => [108] | .ll => [108, 108]
+  | .j => [106] | .z => [122] | .t => [116] | .q => [113]
+
+def IConv.byte : IConv → Nat
+  | .d => 100 | .i => 105 | .o => 111 | .u => 117 | .x => 120 | .X => 88
+
+def IMod.all : List IMod := [.none, .hh, .h, .l, .ll, .j, .z, .t, .q]
+def IConv.all : List IConv := [.d, .i, .o, .u, .x, .X]
+
+/-- **libc's** reading of the length modifier (printf and scanf alike, x86-64 glibc): the width in bits of the integer that is
+    converted — `hh` char, `h` short, none int, `l ll j z t q` 64 bits -/
+def IMod.width : IMod → Nat
+  | .hh => 8 | .h => 16 | .none => 32 | _ => 64
+
+/-- `d` and `i` convert a signed integer, the others an unsigned one (libc) -/
+def IConv.signed : IConv → Bool
+  | .d | .i => true
+  | _ => false
+
+/-- the low `w` bits of `n` as an unsigned number: C's conversion to an unsigned type of `w` bits -/
+def zext (w : Nat) (n : Int) : Int := n % (2 : Int) ^ w
+
+/-- the low `w` bits of `n` as a two's-complement number: C's conversion to a signed type of `w` bits (as gcc/clang define it) -/
+def sext (w : Nat) (n : Int) : Int :=
+  if zext w n < (2 : Int) ^ (w - 1) then zext w n else zext w n - (2 : Int) ^ w
+
+/-- what printf writes for the `int64_t` argument `n` under `%<m><c>`: the argument is converted to the type the modifier names
+    (its low `m.width` bits, signed for `d`/`i`, unsigned otherwise) and written in base 10 / 8 / 16; no flags, width or precision -/
+def printIntSpec (m : IMod) (c : IConv) (n : Int) : List Nat :=
+  match c with
+  | .d | .i => printInt (sext m.width n)
+  | .u => natDigits (zext m.width n).toNat
+  | .o => digitsB 8 false (zext m.width n).toNat
+  | .x => digitsB 16 false (zext m.width n).toNat
+  | .X => digitsB 16 true (zext m.width n).toNat
+
+/-! ## the integer conversions of scanf (glibc `vfscanf`, number conversion + `strtol` / `strtoul`) -/
 
 /-- `isspace` in the C locale -/
 def isSpace (b : Nat) : Bool := b = 32 || (9 ≤ b && b ≤ 13)
@@ -89,31 +148,89 @@ def clampLong (neg : Bool) (v : Nat) : Int :=
   if neg then (if v ≥ 2 ^ 63 then -(2 ^ 63 : Int) else -(v : Int))
   else (if v ≥ 2 ^ 63 then (2 ^ 63 - 1 : Int) else (v : Int))
 
+/-- what `strtoul` returns for magnitude `v` and sign `neg`: ULONG_MAX on overflow, otherwise the (negated) value modulo 2^64 -/
+def clampULong (neg : Bool) (v : Nat) : Nat :=
+  if v ≥ 2 ^ 64 then 2 ^ 64 - 1 else if neg then (2 ^ 64 - v) % 2 ^ 64 else v
+
 /-- the base `%i` chooses from the text after the sign: `0x`/`0X` → 16, a leading `0` → 8, otherwise 10 -/
 def autoBase : List Nat → Nat
   | 48 :: x :: _ => if x = 120 ∨ x = 88 then 16 else 8
   | [48] => 8
   | _ => 10
 
-/-- scanf `%li` (`auto = true`: base from the prefix, as `strtol(…, 0)`) or `%ld` (`auto = false`): skip white space,
-    optional sign, `0x`/`0` prefix, longest digit run.  Returns the value and the unread rest.
+/-- does the text (after the sign) start with `0x` / `0X` -/
+def hexPrefix : List Nat → Bool
+  | 48 :: x :: _ => x == 120 || x == 88
+  | _ => false
+
+/-- the base in which scanf reads: `%i` from the prefix (as `strtol(…, 0)`), the others fixed -/
+def IConv.scanBase (c : IConv) (afterSign : List Nat) : Nat :=
+  match c with
+  | .i => autoBase afterSign
+  | .d | .u => 10
+  | .o => 8
+  | .x | .X => 16
+
+/-- the number conversion of scanf for the conversion character `c`: skip white space, optional sign, for base 16 an optional
+    `0x`, longest digit run in the base; `strtol` (`d`, `i`) or `strtoul` (`o u x X`) of that text.  Returns the 64-bit pattern
+    of `num.l` / `num.ul` (before it is narrowed to the destination) and the unread rest.
     End of input before any character of the number, or no digit: the conversion fails (`err < 1`) → FormatError. -/
-def scanLong (auto : Bool) (input : List Nat) : Res (Int × List Nat) :=
+def scanNumber (c : IConv) (input : List Nat) : Res (Nat × List Nat) :=
   match skipSpace input with
   | [] => .raised .FormatError
-  | c :: r =>
-    let neg := c = 45
-    let i2 := if c = 45 ∨ c = 43 then r else c :: r
-    let base : Nat := if auto then autoBase i2 else 10
-    if base = 16 then
+  | ch :: r =>
+    let neg : Bool := ch = 45
+    let i2 := if ch = 45 ∨ ch = 43 then r else ch :: r
+    let base : Nat := c.scanBase i2
+    let fin (v : Nat) : Nat := if c.signed then (clampLong neg v % (2 : Int) ^ 64).toNat else clampULong neg v
+    if base = 16 ∧ hexPrefix i2 = true then
       -- "0x" is consumed; with no hexadecimal digit after it glibc still converts the buffer "0x" (value 0)
       let (v, _, rest) := readDigits 16 (i2.drop 2) 0 0
-      .ok (clampLong neg v, rest)
+      .ok (fin v, rest)
     else
       let (v, k, rest) := readDigits base i2 0 0
-      if k = 0 then .raised .FormatError else .ok (clampLong neg v, rest)
+      if k = 0 then .raised .FormatError else .ok (fin v, rest)
 
-/-! ## `"%f"` of printf and `"%lf"` of scanf on IEEE-754 binary64, exactly (values are carried as their 64 bits) -/
+/-! ### where `scan_from_with` has the number stored, and how it becomes the `Int` (src/Show.c, commit 9114264) -/
+
+/-- a test on `fmt_buf` in the integer branch of `scan_from_with` -/
+inductive SpecTest where
+  | anyOf (cs : List Nat)     -- `strpbrk(fmt_buf, "…")`
+  | sub (s : List Nat)        -- `strstr(fmt_buf, "…")`
+  | has (c : Nat)             -- `strchr(fmt_buf, '…')`
+  | always                    -- the final `else` (or code without a test)
+deriving DecidableEq, Repr, Inhabited
+
+/-- does `s` occur in `l` -/
+def hasSub (s : List Nat) : List Nat → Bool
+  | [] => s.isEmpty
+  | b :: r => s.isPrefixOf (b :: r) || hasSub s r
+
+def SpecTest.holds : SpecTest → List Nat → Bool
+  | .anyOf cs, buf => buf.any (fun b => cs.contains b)
+  | .sub s, buf => hasSub s buf
+  | .has c, buf => buf.contains c
+  | .always, _ => true
+
+/-- one arm of the integer branch: the test, the width in bits of the object whose address is given to scanf, and whether that
+    object is a temporary that is then widened by the signedness of the conversion (`tmp = sgn ? (long)t : (long)(unsigned T)t`)
+    — `false`: scanf is given `&tmp`, the `long` itself -/
+structure IntArm where
+  test : SpecTest
+  bits : Nat
+  widen : Bool
+deriving DecidableEq, Repr, Inhabited
+
+def selectArm (arms : List IntArm) (buf : List Nat) : Option IntArm := arms.find? (fun a => a.test.holds buf)
+
+/-- the `Int` that results when libc stores the low `w` bits of the pattern `p` into the zero-initialised object of the arm
+    (`w ≤ arm.bits`, little-endian: the other bytes stay 0): a temporary `t` is widened by `sgn` — `(long)t`, or
+    `(long)(unsigned T)t` —; the `long` is read as it is -/
+def finishInt (arm : IntArm) (w : Nat) (sgn : Bool) (p : Nat) : Int :=
+  let stored : Int := ((p % 2 ^ w : Nat) : Int)
+  if arm.widen && !sgn then sext 64 (zext arm.bits stored) else sext arm.bits stored
+
+/-! ## `"%f"` `"%e"` `"%g"` of printf and the floating conversions of scanf on IEEE-754 binary64, exactly (values are carried as their 64 bits) -/
 
 /-- sign, integer significand `m` and exponent `e` with |x| = m · 2^e (finite `bits` only) -/
 def fDecode (bits : Nat) : Bool × Nat × Int :=
@@ -130,25 +247,106 @@ def roundHalfEven (num den : Nat) : Nat :=
   let r := num % den
   if 2 * r > den ∨ (2 * r = den ∧ q % 2 = 1) then q + 1 else q
 
-/-- `"%f"`: the exact value rounded to 6 decimals (glibc rounds the exact binary value, ties to even) -/
+/-- the scaled value `%f` rounds: |x| · 10^6 rounded to an integer (glibc rounds the exact binary value, ties to even) -/
+def fScaled (m : Nat) (e : Int) : Nat :=
+  if e ≥ 0 then m * 2 ^ e.toNat * 10 ^ 6 else roundHalfEven (m * 10 ^ 6) (2 ^ (-e).toNat)
+
+/-- `"%f"`: the exact value rounded to 6 decimals -/
 def printF (bits : Nat) : List Nat :=
   let (sg, m, e) := fDecode bits
-  let q := if e ≥ 0 then m * 2 ^ e.toNat * 10 ^ 6 else roundHalfEven (m * 10 ^ 6) (2 ^ (-e).toNat)
+  let q := fScaled m e
   (if sg then [45] else []) ++ natDigits (q / 10 ^ 6) ++ [46] ++ (natDigits (10 ^ 6 + q % 10 ^ 6)).drop 1
+
+/-- is `n/d ≥ 10^k` -/
+def geTenPow (n d : Nat) (k : Int) : Bool :=
+  if k ≥ 0 then n ≥ d * 10 ^ k.toNat else n * 10 ^ (-k).toNat ≥ d
+
+/-- `⌊log10 (n/d)⌋` for `n, d > 0`: the digit counts differ from it by at most one -/
+def floorLog10 (n d : Nat) : Int :=
+  let c : Int := ((natDigits n).length : Int) - ((natDigits d).length : Int)
+  if geTenPow n d c then c else c - 1
+
+/-- `n/d · 10^s` rounded to the nearest integer, ties to even -/
+def scaleRound (n d : Nat) (s : Int) : Nat :=
+  if s ≥ 0 then roundHalfEven (n * 10 ^ s.toNat) d else roundHalfEven n (d * 10 ^ (-s).toNat)
+
+/-- `P+1` significant decimal digits of `n/d > 0`, correctly rounded: `(D, X)` with `10^P ≤ D < 10^(P+1)` and `n/d ≈ D · 10^(X-P)` -/
+def sciDigits (P : Nat) (n d : Nat) : Nat × Int :=
+  let x0 := floorLog10 n d
+  let d0 := scaleRound n d ((P : Int) - x0)
+  if d0 ≥ 10 ^ (P + 1) then (10 ^ P, x0 + 1) else (d0, x0)
+
+/-- the exponent part `e±dd` (at least two digits) -/
+def expText (upper : Bool) (x : Int) : List Nat :=
+  [if upper then 69 else 101, if x < 0 then 45 else 43] ++ (if x.natAbs < 10 then [48] else []) ++ natDigits x.natAbs
+
+/-- the exact value of a non-zero finite double as a fraction -/
+def fFrac (m : Nat) (e : Int) : Nat × Nat := if e ≥ 0 then (m * 2 ^ e.toNat, 1) else (m, 2 ^ (-e).toNat)
+
+/-- `"%e"` / `"%E"`: one digit, the point, six digits, the exponent -/
+def printE (upper : Bool) (bits : Nat) : List Nat :=
+  let (sg, m, e) := fDecode bits
+  let dx : Nat × Int := if m = 0 then (0, 0) else sciDigits 6 (fFrac m e).1 (fFrac m e).2
+  (if sg then [45] else []) ++ natDigits (dx.1 / 10 ^ 6) ++ [46] ++ (natDigits (10 ^ 6 + dx.1 % 10 ^ 6)).drop 1 ++ expText upper dx.2
+
+/-- trailing zeros removed -/
+def stripZeros (l : List Nat) : List Nat := (l.reverse.dropWhile (· == 48)).reverse
+
+/-- `"%g"` / `"%G"` (precision 6): six significant digits; style `e` when the exponent is < -4 or ≥ 6, style `f` otherwise;
+    trailing zeros of the fraction and an empty fraction's point are removed -/
+def printG (upper : Bool) (bits : Nat) : List Nat :=
+  let (sg, m, e) := fDecode bits
+  let sign : List Nat := if sg then [45] else []
+  if m = 0 then sign ++ [48]
+  else
+    let dx := sciDigits 5 (fFrac m e).1 (fFrac m e).2
+    let ds := natDigits dx.1
+    let x := dx.2
+    let pt (frac : List Nat) : List Nat := if frac.isEmpty then [] else 46 :: frac
+    if x < -4 ∨ x ≥ 6 then sign ++ ds.take 1 ++ pt (stripZeros (ds.drop 1)) ++ expText upper x
+    else if x ≥ 0 then sign ++ ds.take (x.toNat + 1) ++ pt (stripZeros (ds.drop (x.toNat + 1)))
+    else sign ++ [48] ++ pt (stripZeros (List.replicate ((-x).toNat - 1) 48 ++ ds))
+
+/-- `n/d / 2^e` as a fraction of naturals -/
+def scalePair (n d : Nat) (e : Int) : Nat × Nat :=
+  if e ≥ 0 then (n, d * 2 ^ e.toNat) else (n * 2 ^ (-e).toNat, d)
+
+/-- `n/d` (`n, d > 0`) rounded to the nearest `m · 2^e` with `m < 2^prec` and `e ≥ emin` (ties to even); no upper bound on `e`.
+    `e0` is the exponent estimated from the bit lengths (off by at most one), `e1` the exponent that puts the quotient into
+    `[2^(prec-1), 2^prec)`, `e2` that exponent clamped to `emin` (subnormal range) -/
+def roundRat (prec : Nat) (emin : Int) (n d : Nat) : Nat × Int :=
+  let e0 : Int := (n.log2 : Int) - (d.log2 : Int) - ((prec : Int) - 1)
+  let q0 : Nat := (scalePair n d e0).1 / (scalePair n d e0).2
+  let e1 : Int := if q0 ≥ 2 ^ prec then e0 + 1 else if q0 < 2 ^ (prec - 1) then e0 - 1 else e0
+  let e2 : Int := if e1 < emin then emin else e1
+  let m := roundHalfEven (scalePair n d e2).1 (scalePair n d e2).2
+  if m ≥ 2 ^ prec then (2 ^ (prec - 1), e2 + 1) else (m, e2)
+
+def signBit (sg : Bool) : Nat := if sg then 2 ^ 63 else 0
+
+/-- the bits of the binary64 `(−1)^sg · m · 2^e` for `m < 2^53` normalised (`m < 2^52` only with `e = −1074`); HUGE_VAL on overflow -/
+def encode64 (sg : Bool) (m : Nat) (e : Int) : Nat :=
+  if m < 2 ^ 52 then signBit sg + m                           -- subnormal (exponent field 0)
+  else if e + 1075 ≥ 2047 then signBit sg + 2047 * 2 ^ 52     -- overflow
+  else signBit sg + (e + 1075).toNat * 2 ^ 52 + (m - 2 ^ 52)
 
 /-- the binary64 nearest to `n/d` (ties to even; overflow gives infinity), with sign bit `sg`; `d > 0` -/
 def ratToBits (sg : Bool) (n d : Nat) : Nat :=
-  let sbit := if sg then 2 ^ 63 else 0
-  if n = 0 then sbit else
-  let e0 : Int := (n.log2 : Int) - (d.log2 : Int) - 52
-  let q (e : Int) : Nat := if e ≥ 0 then n / (d * 2 ^ e.toNat) else (n * 2 ^ (-e).toNat) / d
-  let e1 : Int := if q e0 ≥ 2 ^ 53 then e0 + 1 else if q e0 < 2 ^ 52 then e0 - 1 else e0
-  let e2 : Int := if e1 < -1074 then -1074 else e1
-  let m := if e2 ≥ 0 then roundHalfEven n (d * 2 ^ e2.toNat) else roundHalfEven (n * 2 ^ (-e2).toNat) d
-  let (m, e2) := if m ≥ 2 ^ 53 then (2 ^ 52, e2 + 1) else (m, e2)
-  if m < 2 ^ 52 then sbit + m                      -- subnormal (exponent field 0); only when e2 = -1074
-  else if e2 + 1075 ≥ 2047 then sbit + 2047 * 2 ^ 52   -- overflow: HUGE_VAL
-  else sbit + (e2 + 1075).toNat * 2 ^ 52 + (m - 2 ^ 52)
+  if n = 0 then signBit sg else
+  let me := roundRat 53 (-1074) n d
+  encode64 sg me.1 me.2
+
+/-- a binary32 value `m · 2^e` (`m < 2^24`) with its significand shifted to 53 bits: every binary32 is a normal binary64 -/
+def widen32 (m : Nat) (e : Int) : Nat × Int :=
+  if m = 0 then (0, -1074) else (m * 2 ^ (52 - m.log2), e - ((52 - m.log2 : Nat) : Int))
+
+/-- the **binary32** nearest to `n/d` (what `strtof` returns: ties to even, infinity from 2^128 on, subnormals down to 2^-149),
+    converted to `double` as `$F(tmp)` does -/
+def ratToBits32 (sg : Bool) (n d : Nat) : Nat :=
+  if n = 0 then signBit sg else
+  let me := roundRat 24 (-149) n d
+  if me.2 ≥ 105 then signBit sg + 2047 * 2 ^ 52
+  else encode64 sg (widen32 me.1 me.2).1 (widen32 me.1 me.2).2
 
 def isDigit (b : Nat) : Bool := 48 ≤ b && b ≤ 57
 
@@ -159,15 +357,15 @@ def spanDigits : List Nat → List Nat × List Nat
 
 def digitsVal (ds : List Nat) : Nat := ds.foldl (fun a b => a * 10 + (b - 48)) 0
 
-/-- the binary64 nearest to (−1)^neg · mant · 10^k (what `strtod` returns for that decimal text) -/
-def decToBits (neg : Bool) (mant : Nat) (k : Int) : Nat :=
-  -- 10^(k+len-1) ≤ value < 10^(k+len): far outside the binary64 range the result is HUGE_VAL / zero whatever the digits
+/-- the floating value nearest to (−1)^neg · mant · 10^k (what `strtod` — `narrow`: `strtof` — returns for that decimal text) -/
+def decToBitsW (narrow : Bool) (neg : Bool) (mant : Nat) (k : Int) : Nat :=
+  -- 10^(k+len-1) ≤ value < 10^(k+len): far outside the range the result is HUGE_VAL / zero whatever the digits
   let len : Int := (natDigits mant).length
-  let sbit := if neg then 2 ^ 63 else 0
-  if mant = 0 then sbit
-  else if k + len > 400 then sbit + 2047 * 2 ^ 52
-  else if k + len < -400 then sbit
-  else if k ≥ 0 then ratToBits neg (mant * 10 ^ k.toNat) 1 else ratToBits neg mant (10 ^ (-k).toNat)
+  let r2b := if narrow then ratToBits32 else ratToBits
+  if mant = 0 then signBit neg
+  else if k + len > 400 then signBit neg + 2047 * 2 ^ 52
+  else if k + len < -400 then signBit neg
+  else if k ≥ 0 then r2b neg (mant * 10 ^ k.toNat) 1 else r2b neg mant (10 ^ (-k).toNat)
 
 /-- mantissa of a decimal floating text: digits, optionally `.` and more digits; returns integer digits, fraction digits, rest -/
 def spanMantissa (l : List Nat) : List Nat × List Nat × List Nat :=
@@ -208,9 +406,11 @@ def floatSpecial : List Nat → Option Bool
     else none
   | [] => none
 
-/-- scanf `%lf` on decimal text (glibc): white space, sign, digits with at most one `.`, exponent part; the conversion fails
-    (`err < 1` → FormatError) at the end of input or when there is no digit.  `inf`/`nan`/hexadecimal input is `unmodelled`. -/
-def scanDouble (input : List Nat) : Res (Nat × List Nat) :=
+/-- the floating conversions of scanf (`f F e E g G` read alike) on decimal text (glibc): white space, sign, digits with at most one
+    `.`, exponent part; the conversion fails (`err < 1` → FormatError) at the end of input or when there is no digit.
+    `narrow = false`: the destination is a `double` (`strtod`); `narrow = true`: it is a `float` (`strtof`), widened afterwards.
+    `inf`/`nan`/hexadecimal input is `unmodelled`. -/
+def scanFloating (narrow : Bool) (input : List Nat) : Res (Nat × List Nat) :=
   match skipSpace input with
   | [] => .raised .FormatError
   | c :: r =>
@@ -225,13 +425,48 @@ def scanDouble (input : List Nat) : Res (Nat × List Nat) :=
       if m.1.length + m.2.1.length = 0 then .raised .FormatError
       else
         let e := spanExponent m.2.2
-        .ok (decToBits neg (digitsVal (m.1 ++ m.2.1)) (e.1 - m.2.1.length), e.2)
+        .ok (decToBitsW narrow neg (digitsVal (m.1 ++ m.2.1)) (e.1 - m.2.1.length), e.2)
 
-/-- the double `%lf` reads from what `%f` printed for `bits` -/
-def reparse (bits : Nat) : Nat :=
-  match scanDouble (printF bits) with
+/-- scanf `%lf` -/
+def scanDouble (input : List Nat) : Res (Nat × List Nat) := scanFloating false input
+
+/-- floating conversions -/
+inductive FConv where
+  | f | F | e | E | g | G
+deriving DecidableEq, Repr, Inhabited
+
+def FConv.byte : FConv → Nat
+  | .f => 102 | .F => 70 | .e => 101 | .E => 69 | .g => 103 | .G => 71
+
+def FConv.all : List FConv := [.f, .F, .e, .E, .g, .G]
+
+/-- what printf writes for a finite double under `%<c>` / `%l<c>` (`l` has no effect in printf; no flags, width or precision) -/
+def printFloatSpec (c : FConv) (bits : Nat) : List Nat :=
+  match c with
+  | .f | .F => printF bits
+  | .e => printE false bits
+  | .E => printE true bits
+  | .g => printG false bits
+  | .G => printG true bits
+
+/-- the value a floating conversion of scanf (`narrow`: into a `float`) reads from what `%<c>` printed for `bits` -/
+def reparseSpec (narrow : Bool) (c : FConv) (bits : Nat) : Nat :=
+  match scanFloating narrow (printFloatSpec c bits) with
   | .ok (v, _) => v
   | _ => bits
+
+/-- the double `%lf` reads from what `%f` printed for `bits` -/
+def reparse (bits : Nat) : Nat := reparseSpec false .f bits
+
+/-- is the finite double `bits` the value of some `float` (binary32): at most 24 significant bits, exponent range of binary32 -/
+def isFloat32 (bits : Nat) : Bool :=
+  let (_, m, e) := fDecode bits
+  m == 0 ||
+    -- m = m' · 2^t with m' odd: 24 bits means t ≥ 29 when m has 53; value m'·2^(e+t) needs e+t ≥ -149 after using at most 24 bits
+    (let m24 := m / 2 ^ 29
+     m24 * 2 ^ 29 == m && 2 ^ 52 ≤ m && e + 29 ≥ -149 && e + 29 ≤ 104) ||
+    -- float subnormals and small normals are normal doubles with trailing zeros: m · 2^e = k · 2^-149, k < 2^24
+    (2 ^ 52 ≤ m && e + 29 < -149 && e ≥ -149 - 52 && m % 2 ^ (-149 - e).toNat == 0)
 
 /-! ## The reader: `String_Look` -/
 
@@ -359,13 +594,17 @@ deriving Repr, DecidableEq, Inhabited
 
 /-- one segment of a format string together with the argument it prints -/
 inductive Item where
-  | shw (v : Val)        -- `%$`
-  | li (n : Int)         -- `%li` with an Int argument
-  | ld (n : Int)         -- `%ld`
-  | lf (bits : Nat)      -- `%lf` with a Float argument
-  | lit (t : List Nat)  -- a literal run (no `%`, no NUL, not empty)
-  | pct                  -- `%%`
+  | shw (v : Val)                                  -- `%$`
+  | ispec (m : IMod) (c : IConv) (n : Int)         -- `%<m><c>` with an Int argument: `%d %hhx %lu %ji …`
+  | fspec (l : Bool) (c : FConv) (bits : Nat)      -- `%<c>` / `%l<c>` with a Float argument: `%f %le %G …`
+  | lit (t : List Nat)                             -- a literal run (no `%`, no NUL, not empty)
+  | pct                                            -- `%%`
 deriving Repr, DecidableEq, Inhabited
+
+/-- `%li` / `%ld` / `%lf` (the specifications of the first version of this model) -/
+abbrev Item.li (n : Int) : Item := .ispec .l .i n
+abbrev Item.ld (n : Int) : Item := .ispec .l .d n
+abbrev Item.lf (bits : Nat) : Item := .fspec true .f bits
 
 /-- the source-derived parameters -/
 structure Cfg where
@@ -377,15 +616,21 @@ structure Cfg where
   pctAdvance : Nat
   scanConv : List Nat
   printConv : List Nat
+  intArms : List IntArm        -- the arms of the integer branch of `scan_from_with`, in order (commit 9114264)
+  intSigned : List Nat         -- the conversion characters for which `sgn` is true there
+  floatWide : List Nat         -- `strchr(fmt_buf, '…')`: the characters whose presence selects the `double` arm of the floating branch
+
+/-- the text of an integer / floating specification -/
+def ispecFmt (m : IMod) (c : IConv) : List Nat := 37 :: (m.text ++ [c.byte])
+def fspecFmt (l : Bool) (c : FConv) : List Nat := 37 :: ((if l then [108] else []) ++ [c.byte])
 
 /-- the text one item produces -/
 def Item.text (c : Cfg) : Item → List Nat
   | .shw (.str s) => showString c.showEsc c.showOpen c.showClose s
   | .shw (.int n) => printInt n
   | .shw (.flt b) => printF b
-  | .li n => printInt n
-  | .ld n => printInt n
-  | .lf b => printF b
+  | .ispec m cv n => printIntSpec m cv n
+  | .fspec _ cv b => printFloatSpec cv b
   | .lit t => t
   | .pct => [37]
 
@@ -400,41 +645,71 @@ def printItems (c : Cfg) (o : Sink) (pos : Nat) : List Item → Sink × Nat
 
 /-- what is read for one segment: the value stored in the argument, if the segment has one -/
 inductive Shape where
-  | str | int | flt | li | ld | lf
+  | str | int | flt
+  | ispec (m : IMod) (c : IConv)
+  | fspec (l : Bool) (c : FConv)
   | lit (t : List Nat)
   | pct
 deriving Repr, DecidableEq, Inhabited
+
+abbrev Shape.li : Shape := .ispec .l .i
+abbrev Shape.ld : Shape := .ispec .l .d
+abbrev Shape.lf : Shape := .fspec true .f
 
 def Item.shape : Item → Shape
   | .shw (.str _) => .str
   | .shw (.int _) => .int
   | .shw (.flt _) => .flt
-  | .li _ => .li
-  | .ld _ => .ld
-  | .lf _ => .lf
+  | .ispec m c _ => .ispec m c
+  | .fspec l c _ => .fspec l c
   | .lit t => .lit t
   | .pct => .pct
 
 /-- values the arguments hold before scanning (what the harness initialises them to) -/
 def sentinel : Shape → Option Val
   | .str => some (.str [63])
-  | .int | .li | .ld => some (.int 77)
-  | .flt | .lf => some (.flt 0x401E000000000000)
+  | .int | .ispec _ _ => some (.int 77)
+  | .flt | .fspec _ _ => some (.flt 0x401E000000000000)
   | .lit _ | .pct => none
 
-/-- `scan_from_with` on one segment from `pos`: the argument's value afterwards (also on error) and the input / position -/
+/-- the integer branch of `scan_from_with` for the specification `%<m><c>` as a reader: `fmt_buf` is the specification followed
+    by `%n`; the first arm whose test holds names the object scanf stores into; libc stores `m.width` bits there (more than the
+    object has: undefined behaviour); the result becomes the `Int` as `finishInt` says -/
+def scanIntSpec (c : Cfg) (m : IMod) (cv : IConv) (input : List Nat) : Res (Int × List Nat) :=
+  match selectArm c.intArms (ispecFmt m cv ++ [37, 110]) with
+  | none => .unmodelled
+  | some arm =>
+    if arm.bits < m.width then .ub
+    else match scanNumber cv input with
+      | .ok (p, rest) => .ok (finishInt arm m.width (c.intSigned.contains cv.byte) p, rest)
+      | .raised e => .raised e
+      | .ub => .ub
+      | .unmodelled => .unmodelled
+
+/-- the floating branch for `%<c>` / `%l<c>`: a `double` is read when `fmt_buf` contains one of `floatWide`, a `float` otherwise -/
+def fspecNarrow (c : Cfg) (l : Bool) (cv : FConv) : Bool :=
+  !((fspecFmt l cv ++ [37, 110]).any (fun b => c.floatWide.contains b))
+
+def scanFloatSpec (c : Cfg) (l : Bool) (cv : FConv) (input : List Nat) : Res (Nat × List Nat) :=
+  scanFloating (fspecNarrow c l cv) input
+
+/-- `scan_from_with` on one segment from `pos`: the argument's value afterwards (also on error) and the input / position.
+    `%$` on an Int is `Int_Look`: `scan_from(input, pos, "%li", self)`; on a Float `Float_Look`: `"%lf"`. -/
 def scanItem (c : Cfg) (i : Input) (pos : Nat) : Shape → Option Val × Res (Input × Nat)
   | .str =>
     let (v, r) := i.run pos [63] (lookString c.look)
     (some (.str v), r)
-  | .int | .li =>
-    let (v, r) := i.run pos 77 (withN (scanLong true) 77)
+  | .int =>
+    let (v, r) := i.run pos 77 (withN (scanIntSpec c .l .i) 77)
     (some (.int v), r)
-  | .ld =>
-    let (v, r) := i.run pos 77 (withN (scanLong false) 77)
+  | .ispec m cv =>
+    let (v, r) := i.run pos 77 (withN (scanIntSpec c m cv) 77)
     (some (.int v), r)
-  | .flt | .lf =>
-    let (v, r) := i.run pos 0x401E000000000000 (withN scanDouble 0x401E000000000000)
+  | .flt =>
+    let (v, r) := i.run pos 0x401E000000000000 (withN (scanFloatSpec c true .f) 0x401E000000000000)
+    (some (.flt v), r)
+  | .fspec l cv =>
+    let (v, r) := i.run pos 0x401E000000000000 (withN (scanFloatSpec c l cv) 0x401E000000000000)
     (some (.flt v), r)
   | .lit t =>
     -- `format_from(input, pos, text)`: result ignored, `pos += length`
@@ -468,6 +743,13 @@ def scanItems (c : Cfg) (i : Input) (pos : Nat) : List Shape → List Val × Res
     | (v, .ub) => (v.toList ++ (ss.filterMap sentinel), .ub)
     | (v, .unmodelled) => (v.toList ++ (ss.filterMap sentinel), .unmodelled)
 
+/-- a generated test of the integer branch as a `SpecTest` -/
+def mkTest (kind : String) (arg : List Nat) : SpecTest :=
+  if kind = "strpbrk" then .anyOf arg
+  else if kind = "strstr" then .sub arg
+  else if kind = "strchr" then (match arg with | [c] => .has c | _ => .anyOf [])
+  else .always
+
 /-- the parameters read from the source by the translator (CelloGen/Text.lean) -/
 def srcCfg : Cfg where
   showEsc := CelloGen.Text.showEsc
@@ -479,6 +761,12 @@ def srcCfg : Cfg where
   pctAdvance := CelloGen.Text.scanPctAdvance
   scanConv := CelloGen.Text.scanConv
   printConv := CelloGen.Text.printConv
+  intArms := CelloGen.Text.scanIntArms.map (fun a => { test := mkTest a.1 a.2.1, bits := a.2.2.1, widen := a.2.2.2 })
+  intSigned := CelloGen.Text.scanIntSigned
+  floatWide := CelloGen.Text.scanFloatWide
+
+/-- the integer branch before commit 9114264: every specification was read into `long tmp = 0` itself -/
+def oldIntArms : List IntArm := [{ test := .always, bits := 64, widen := false }]
 
 /-! ## The contract of the round trip (what the property quantifies over), as an executable predicate -/
 
@@ -491,12 +779,30 @@ def lastIs (p : Nat → Bool) : List Nat → Bool
   | [b] => p b
   | _ :: r => lastIs p r
 
-/-- text after a printed integer does not continue the number: no digit, and after a lone `0` read with `%li` no `x`/`X` -/
-def intSafe (auto : Bool) (n : Int) (f : List Nat) : Bool :=
-  !headIs isDigit f && !(auto && n == 0 && headIs (fun b => b == 120 || b == 88) f)
+def isXx (b : Nat) : Bool := b == 120 || b == 88
 
-/-- text after a printed `%f` does not continue the number: no digit, no exponent letter -/
+/-- text after a printed integer does not continue the number: no digit (for `%x`/`%X`: no hexadecimal digit), and after a
+    lone `0` read with `%i`, `%x` or `%X` no `x`/`X` (it would be taken for the `0x` prefix) -/
+def ispecSafe (m : IMod) (c : IConv) (n : Int) (f : List Nat) : Bool :=
+  match c with
+  | .d | .u | .o => !headIs isDigit f
+  | .i => !headIs isDigit f && !(zext m.width n == 0 && headIs isXx f)
+  | .x | .X => !headIs isHexDigit f && !(zext m.width n == 0 && headIs isXx f)
+
+/-- `%$` of an Int is `%li` -/
+def intSafe (auto : Bool) (n : Int) (f : List Nat) : Bool :=
+  !headIs isDigit f && !(auto && n == 0 && headIs isXx f)
+
+/-- text after a printed `%f` / `%e` does not continue the number: no digit, no exponent letter -/
 def fltSafe (f : List Nat) : Bool := !headIs (fun b => isDigit b || b == 101 || b == 69) f
+
+/-- text after a printed `%g` (which may have neither point nor exponent, and may be a lone `0`): also no `.`, no `x`/`X` -/
+def gSafe (f : List Nat) : Bool := !headIs (fun b => isDigit b || b == 101 || b == 69 || b == 46 || isXx b) f
+
+def fspecSafe (c : FConv) (f : List Nat) : Bool :=
+  match c with
+  | .g | .G => gSafe f
+  | _ => fltSafe f
 
 /-- a separator read from a File swallows following white space if it ends in white space -/
 def litSafe (k : Kind) (t f : List Nat) : Bool := k == .str || !(lastIs isSpace t && headIs isSpace f)
@@ -508,44 +814,64 @@ def Item.valid : Item → Bool
   | .shw (.str s) => s.all (· != 0)
   | .shw (.int n) => inInt64 n
   | .shw (.flt b) => fFinite b
-  | .li n => inInt64 n
-  | .ld n => inInt64 n
-  | .lf b => fFinite b
+  | .ispec _ _ n => inInt64 n
+  | .fspec _ _ b => fFinite b
   | .lit t => !t.isEmpty && t.all (fun b => b != 0 && b != 37)
   | .pct => true
 
 def Item.safe (k : Kind) (f : List Nat) : Item → Bool
   | .shw (.str _) => true
-  | .shw (.int n) => intSafe true n f
+  | .shw (.int n) => ispecSafe .l .i n f
   | .shw (.flt _) => fltSafe f
-  | .li n => intSafe true n f
-  | .ld n => intSafe false n f
-  | .lf _ => fltSafe f
+  | .ispec m c n => ispecSafe m c n f
+  | .fspec _ c _ => fspecSafe c f
   | .lit t => litSafe k t f
   | .pct => true       -- the written `%` is matched and counted whatever follows
 
-/-- the sequence `its` followed by the unread text `z` is inside the property's quantifier -/
+/-- the sequence `its` followed by the unread text `z` is inside the model's contract: values of the C types, nothing that
+    continues a number after it -/
 def contractOK (c : Cfg) (k : Kind) : List Item → List Nat → Bool
   | [], _ => true
   | it :: its, z => it.valid && it.safe k (its.flatMap (Item.text c) ++ z) && contractOK c k its z
 
-/-- the value `scan_from_with` is expected to store for an item: the value written — for a Float, the double nearest to
-    the six-decimal text that was written (`reparse`) -/
-def Item.readBack : Item → Option Val
-  | .shw (.flt b) => some (.flt (reparse b))
-  | .lf b => some (.flt (reparse b))
+/-- the value C's conversion to the type a specification names leaves of `n`: what is read back (`scanIntSpec_roundtrip`) -/
+def convInt (m : IMod) (c : IConv) (n : Int) : Int :=
+  if c.signed then sext m.width n else if m.width = 64 then n else zext m.width n
+
+/-- `n` is a value of the type the specification names — for the 64-bit modifiers every `int64_t` (also under `o u x X`: the
+    unsigned text is read back into the same 64 bits) -/
+def intInWidth (m : IMod) (c : IConv) (n : Int) : Bool :=
+  if m.width = 64 then inInt64 n
+  else if c.signed then -((2 : Int) ^ (m.width - 1)) ≤ n && n < (2 : Int) ^ (m.width - 1)
+  else 0 ≤ n && n < (2 : Int) ^ m.width
+
+/-- the value is representable in the destination the specification makes `scan_from_with` use: the integer type the modifier
+    names; a `float` for a floating specification that is read narrow (known finding KF-C15-float-spec-narrow otherwise) -/
+def Item.inWidth (c : Cfg) : Item → Bool
+  | .ispec m cv n => intInWidth m cv n
+  | .fspec l cv b => !fspecNarrow c l cv || isFloat32 b
+  | _ => true
+
+/-- **the property's quantifier** as far as the theorems cover it: the contract, and every value fits its destination -/
+def inProperty (c : Cfg) (k : Kind) (its : List Item) (z : List Nat) : Bool :=
+  contractOK c k its z && its.all (Item.inWidth c)
+
+/-- the value `scan_from_with` is expected to store for an item: the value written — for an Int under a narrow specification,
+    C's conversion of it to that type (itself when it fits); for a Float, the double (or widened float) nearest to the text
+    that was written (`reparseSpec`) -/
+def Item.readBack (c : Cfg) : Item → Option Val
+  | .shw (.flt b) => some (.flt (reparseSpec (fspecNarrow c true .f) .f b))     -- `Float_Look`: "%lf"
   | .shw v => some v
-  | .li n => some (.int n)
-  | .ld n => some (.int n)
+  | .ispec m cv n => some (.int (convInt m cv n))
+  | .fspec l cv b => some (.flt (reparseSpec (fspecNarrow c l cv) cv b))
   | .lit _ => none
   | .pct => none
 
 /-- values carried by the items, in order -/
 def Item.val? : Item → Option Val
   | .shw v => some v
-  | .li n => some (.int n)
-  | .ld n => some (.int n)
-  | .lf b => some (.flt b)
+  | .ispec _ _ n => some (.int n)
+  | .fspec _ _ b => some (.flt b)
   | .lit _ => none
   | .pct => none
 
@@ -586,9 +912,8 @@ def segment (conv : List Nat) (fmt : List Nat) : List Seg := segmentF conv (fmt.
 /-- the format text of an item -/
 def Item.fmt : Item → List Nat
   | .shw _ => [37, 36]          -- "%$"
-  | .li _ => [37, 108, 105]     -- "%li"
-  | .ld _ => [37, 108, 100]     -- "%ld"
-  | .lf _ => [37, 108, 102]     -- "%lf"
+  | .ispec m c _ => ispecFmt m c
+  | .fspec l c _ => fspecFmt l c
   | .lit t => t
   | .pct => [37, 37]
 
@@ -597,13 +922,18 @@ def Item.seg : Item → Seg
   | .pct => .pct
   | it => .spec it.fmt
 
-/-- the item a specification makes of its argument: `%$` takes any value (`show_to`), `%li`/`%ld` an Int (`c_int`), `%lf` a Float
-    (`c_float`); every other specification is outside this model -/
+/-- every integer specification of the model with its text, every floating specification with its text -/
+def allISpecs : List (List Nat × IMod × IConv) := IMod.all.flatMap (fun m => IConv.all.map (fun c => (ispecFmt m c, m, c)))
+def allFSpecs : List (List Nat × Bool × FConv) := [true, false].flatMap (fun l => FConv.all.map (fun c => (fspecFmt l c, l, c)))
+
+/-- the item a specification makes of its argument: `%$` takes any value (`show_to`); the 54 integer specifications
+    `%[hh|h|l|ll|j|z|t|q][d|i|o|u|x|X]` an Int (`c_int`); the 12 floating specifications `%[l][f|F|e|E|g|G]` a Float (`c_float`);
+    every other specification (flags, width, precision, `%a`, `%c`, `%s`, `%p`, `L`) is outside this model -/
 def specItem (spec : List Nat) (v : Val) : Option Item :=
   if spec = [37, 36] then some (.shw v)
   else match v with
-    | .int n => if spec = [37, 108, 105] then some (.li n) else if spec = [37, 108, 100] then some (.ld n) else none
-    | .flt b => if spec = [37, 108, 102] then some (.lf b) else none
+    | .int n => (allISpecs.lookup spec).map (fun mc => .ispec mc.1 mc.2 n)
+    | .flt b => (allFSpecs.lookup spec).map (fun lc => .fspec lc.1 lc.2 b)
     | .str _ => none
 
 /-- segments + argument values → items (`none`: too few arguments — FormatError in C —, an open `%`, or an unmodelled specification) -/
@@ -632,8 +962,10 @@ def fmtOK : List Item → Bool
   | .lit t :: its => !t.isEmpty && t.all (· != 37) && (match its with | .lit _ :: _ => false | _ => true) && fmtOK its
   | _ :: its => fmtOK its
 
-/-- what the format layer needs of a conversion set: it ends `%$`, `%li`, `%ld`, `%lf` where they end, not earlier -/
+/-- what the format layer needs of a conversion set: it ends a specification at `$` and at each of `d i o u x X f F e E g G`, and
+    not at a length modifier (`h l j z t q`) or at `%` -/
 def convOK (conv : List Nat) : Bool :=
-  conv.contains 36 && conv.contains 105 && conv.contains 100 && conv.contains 102 && !conv.contains 108 && !conv.contains 37
+  ([36] ++ IConv.all.map IConv.byte ++ FConv.all.map FConv.byte).all (fun b => conv.contains b) &&
+  ([37, 104, 108, 106, 122, 116, 113]).all (fun b => !conv.contains b)
 
 end Cello.Text
